@@ -158,6 +158,8 @@ def shape(q):
         return "%s(%s)" % (op, shape(q["q"]))
     if op in ("spanor", "spannear2", "sequence"):
         return "%s(%s)" % (op, ",".join(shape(k) for k in q["kids"]))
+    if op.startswith("nested"):
+        return "%s(%s,%s)" % (op, shape(q["p"]), shape(q["q"]))
     if op.startswith("span"):
         return "%s(%s,%s)" % (op, shape(q["a"]), shape(q["b"]))
     return op
@@ -168,7 +170,7 @@ def ops_of(q, acc=None):
     acc.add(q["op"])
     for k in q.get("kids", []):
         ops_of(k, acc)
-    for key in ("a", "b", "q"):
+    for key in ("a", "b", "q", "p"):
         if key in q and isinstance(q[key], dict):
             ops_of(q[key], acc)
     return acc
